@@ -127,6 +127,12 @@ def PExp.eval {α : Type} [Arith α] : PExp α → Except TErr (Prim α)
         | .ok r => .ok r
         | .error c => .error (.binOpError c)
 
+/-- every literal is a proper value (no literal of kind `Any`, scalars are not wrapped in `other`) -/
+def PExp.proper {α : Type} : PExp α → Bool
+  | .lit p => p.proper
+  | .un _ e => e.proper
+  | .bin _ a b => a.proper && b.proper
+
 /-! ### builtin function signatures (static side) and their dynamic argument conversions -/
 
 def Kind.isIter : Kind → Bool | .iter _ => true | _ => false
@@ -203,5 +209,27 @@ def fnCallTypeError (name : String) (args : List Kind) : Option TErr :=
   | "neigh_edges_of", [n, g] | "N_of", [n, g] => if n == .string && g == .graph then none else some .wrongArgument
   | "neigh_edges_of", _ | "N_of", _ => some .wrongNumberOfArguments
   | _, _ => some .nonExistentFunction
+
+/-- a runtime kind `d` is compatible with a static kind `s`: `Any` admits everything, iterables and
+tuples are compared by constructor only (their parameters are a static approximation:
+`range` is typed `Integer[]`, the position of `enumerate` is typed `PositiveInteger` and is a
+`Number` at run time), numeric kinds other than Boolean form one class -/
+def numClass : Kind → Kind
+  | .integer | .pint | .number => .number
+  | k => k
+def refines (d s : Kind) : Bool :=
+  match s with
+  | .any => true
+  | .iter _ => d.isIter
+  | .tuple _ => (match d with | .tuple _ => true | _ => false)
+  | s => numClass d == numClass s
+def refinesAll : List Kind → List Kind → Bool
+  | [], [] => true
+  | d :: ds, s :: ss => refines d s && refinesAll ds ss
+  | _, _ => false
+
+/-- the builtins whose static signature covers their dynamic argument conversions -/
+def soundBuiltins : List String :=
+  ["len", "enumerate", "enum", "zip", "range", "nodes", "V", "edges", "E", "neigh_edges", "N", "neigh_edges_of", "N_of"]
 
 end Rooc.Pre
